@@ -1173,7 +1173,7 @@ func (m *monitor) afterQuery(o opLine, q qres, s *snap) {
 			break
 		}
 		if !q.halt {
-			m.v("C12", o, unreadable(s, n, t), "getRecords fails although the enclosing name "+rs0(rs, s, n, t)+" and its parents are unexpired")
+			m.v("C12", o, "records-unreadable", "getRecords fails although the enclosing name "+rs0(rs, s, n, t)+" and its parents are unexpired")
 		} else if !sameList(q.list, ofType(rs, typ.Int64())) {
 			m.v("C12", o, "records-read", fmt.Sprintf("getRecords answers %q, stored %q", q.list, ofType(rs, typ.Int64())))
 		}
@@ -1190,7 +1190,7 @@ func (m *monitor) afterQuery(o opLine, q qres, s *snap) {
 			break
 		}
 		if !q.halt {
-			m.v("C12", o, unreadable(s, n, t), "getAllRecords fails although the enclosing name "+rs0(rs, s, n, t)+" and its parents are unexpired")
+			m.v("C12", o, "records-unreadable", "getAllRecords fails although the enclosing name "+rs0(rs, s, n, t)+" and its parents are unexpired")
 			break
 		}
 		okAll := len(q.recs) == len(rs)
@@ -1221,16 +1221,6 @@ func (m *monitor) afterQuery(o opLine, q qres, s *snap) {
 			}
 		}
 	}
-}
-
-// unreadable names the failure class: names two or more labels below their enclosing registered name are
-// the input class of finding F19.
-func unreadable(s *snap, n string, t *big.Int) string {
-	tok, _ := enclosing(s, n, t)
-	if len(labels(n))-len(labels(tok)) >= 2 {
-		return "records-unreadable-deep-subname"
-	}
-	return "records-unreadable"
 }
 
 func rs0(rs []recSt, s *snap, n string, t *big.Int) string {
